@@ -29,6 +29,20 @@ Theorem C09_url_depth1 : forall e u, url_of e = Some u -> exists d f, u_path u =
 Proof. exact url_shape. Qed.
 Print Assumptions C09_url_depth1.
 
+(* entities that own no page get a URL only as "<parent page>#<anchor>", only for the anchored kinds,
+   and only when the parent has a URL: a derived type declared inside a procedure has none, and neither
+   have its components and bindings (their anchors are written on full type pages only) *)
+Theorem C09_url_unanchored_kind : forall e,
+  get_dir e = None -> anchored_kind (e_kind e) = false -> url_of e = None.
+Proof. exact url_unanchored_kind. Qed.
+Print Assumptions C09_url_unanchored_kind.
+
+Theorem C09_url_none_inherited : forall k obj ident named ifp p,
+  get_dir (Ent k obj ident named ifp (Some p)) = None -> url_of p = None ->
+  url_of (Ent k obj ident named ifp (Some p)) = None.
+Proof. exact url_none_inherited. Qed.
+Print Assumptions C09_url_none_inherited.
+
 (* the link computed once, from a non-existent sibling directory, is right from EVERY depth-1 page *)
 Theorem C09_sibling_trick : forall base ctx d f d',
   clean base = true -> clean [d; f] = true -> clean_comp d' = true ->
